@@ -1,4 +1,5 @@
 """C08 — every run returns: termination and shutdown are live."""
+import os
 import vcommon as V, simrun as S
 from checks import simcommon as C
 
@@ -33,6 +34,16 @@ def run(c, replay):
         hangs[sig] = hangs.get(sig, 0) + 1
         c.violation(sig, dict(kind="property", what="RootsimRun did not return", stages=res.hang, program=pr["text"],
                               config=C.describe(run_)), True)
+    # ---- probe of the layouts with more ranks than LPs (a rank hosting no LP)
+    import progen
+    p1 = progen.gen_program(V.Rng(c.seed + 5), lps=1, target=5)
+    pf1 = os.path.join(ctx["sd"], "onelp.txt")
+    open(pf1, "w").write(progen.render(p1))
+    res1 = S.run_sim(ctx["exe"], pf1, threads=1, ckpt=0, gvt=1000, ranks=2, watchdog=12, timeout=40)
+    if not res1.returned:
+        san = "variable length array bound evaluates to non-positive" in res1.err
+        c.violation("hang:rank-without-lps" if not san else "hang:rank-without-lps:zero-length-vla",
+                    dict(kind="property", what="1 LP on 2 ranks: RootsimRun does not return on any rank", program=progen.render(p1), stderr=res1.err[-600:]), True)
     C.finish(c, ctx)
     c.cov.update(evaluations=len(runs), distinct_nontrivial=ok, runs_returned=ok, hang_signatures=hangs, by_variant=byvar,
                  rule="interpreter programs ended by predicate, termination time or RootsimStop from a handler x thread counts 1..16 (more threads than "
